@@ -30,7 +30,7 @@ REQUIRED_COUNTERS = ('graphs', 'records_checked', 'referencesf_comparisons', 'is
 
 
 def shards(tier, seed):
-    return split(tier, seed, 240, 12000, 40, 900)
+    return split(tier, seed, 2400, 24000, 40, 900)
 
 
 def hostile_oids(rnd):
